@@ -1,13 +1,13 @@
 _Q = {"strata": "cte", "allow": "cte_shadow,dup_derived_names", "deny": "cross_join", "joins": "1"}
-_M = {"strata": "cte", "allow": "dup_derived_names", "deny": "cross_join,join_residual", "joins": "1", "multi": "1", "cfgs": "memb", "max_rows": "1500"}
+_M = {"strata": "cte", "deny": "cross_join,join", "joins": "0", "multi": "1", "cfgs": "memb", "max_rows": "2500"}
 ENTRY = {
     "level": "proof",
     "families": [fam("SQLC28", 260, 12000, opts={"quick": _Q, "thorough": dict(_Q, joins="2")}),
-                 fam("SQLC28", 24, 1500, opts={"quick": _M, "thorough": _M})],
+                 fam("SQLC28", 16, 1000, opts={"quick": _M, "thorough": _M})],
     "gen_items": [],
     "rule": "generated statements WITH w0 [, w1 [, w2]] AS (filter / join / aggregate blocks; a definition may read its earlier siblings) SELECT ... whose FROM items are "
             "drawn mostly from the CTEs (each referenced 0-4 times, also twice in one FROM), half of them with a nested WITH that re-uses the last outer name inside a derived "
-            "table (every second one spelled with the outer definition's column names, as in A.16); references inside subquery expressions as the generator places them; a "
+            "table (every second one spelled with the outer definition's column names, as in A.16); every third statement with one more WHERE conjunct that reads a CTE inside a subquery expression ([NOT] EXISTS / scalar COUNT(*) comparison); a "
             "second stream over a table of 1000-2200 rows in several batches (multi-partition CTE bodies); run through ExecutionContext::sql over single- and multi-batch memory "
             "tables. Oracle = Spec.acceptable on the engine's rows; additionally an engine ERROR on the WITH statement is a failure when the engine answers the CTE-free rendering "
             "of the same statement correctly. K also demands Spec.run(inlined statement) = Spec.run(plan) on every case. Non-trivial = engine answered and the reference answer is "
@@ -20,7 +20,7 @@ ENTRY = {
     "assumptions": ["CTE definitions are uncorrelated (the generator never puts a WITH inside a correlated subquery)",
                     "no CROSS JOIN outside the shadow block, at most one JOIN per FROM in the quick tier (result sizes)",
                     "auxiliary operator defects (C21 / C22 / C23 findings) are attributed to C28-F3 only when the engine returns the same rows for the CTE-free rendering"],
-    "min_tags": {"names:shadowed": 20, "names:unique": 20, "share:2": 10, "f:shadow_same_columns": 10, "f:dup_derived_names": 3, "inline:agree": 100},
+    "min_tags": {"ref_in_subquery": 20, "names:shadowed": 20, "names:unique": 20, "share:2": 10, "f:shadow_same_columns": 10, "f:dup_derived_names": 3, "inline:agree": 100},
     "manifest": {
         "category": "proof",
         "text": "Lean theorems. Reference semantics (Spec.run, all plans / catalogs / stacks / environments): WITH runs its body over the stack extended by exactly one table per definition, "
